@@ -590,6 +590,20 @@ let run_case line =
              (int_of_nat (x_c_occ s)) (int_of_nat (x_c_cap s)) (int_of_nat (x_c_avail s)) (int_of_nat (x_c_recv s))
              (String.concat "," (List.map (fun (pc, (i, w)) -> Printf.sprintf "%d%s%s" (int_of_nat pc) (if i then "i" else "") (if w then "w" else "")) (x_c_senders s)))
        | None -> Printf.sprintf "NONE states=%d%s" !count (if !count > limit then " state-limit-reached" else ""))
+  | "strun" :: _ ->
+      (* looks for an input on which the run body generated from st_executor.rs violates its specification:
+         initial thread count, initial model id, own count, change of the count, panicking model *)
+      let zs = [0; 1; -1; 5] and ids = [None; Some 3] and ps = [None; Some 7] in
+      let found = ref None in
+      List.iter (fun c0 -> List.iter (fun i0 -> List.iter (fun own -> List.iter (fun d -> List.iter (fun p ->
+        if !found = None then begin
+          let io = (match i0 with None -> None | Some i -> Some (nat_of_int i)) in
+          let po = (match p with None -> None | Some i -> Some (nat_of_int i)) in
+          if not (sr_check strun_gen (z_of_int c0) io (z_of_int own) (z_of_int d) po) then
+            found := Some (Printf.sprintf "thread_count_before=%d model_id_before=%s own_count=%d count_change=%d panicking_model=%s"
+                             c0 (match i0 with None -> "none" | Some i -> string_of_int i) own d (match p with None -> "none" | Some i -> string_of_int i))
+        end) ps) zs) [0; 1]) ids) zs;
+      (match !found with Some s -> "FOUND " ^ s | None -> "NONE")
   | "crw" :: ops ->
       let op_of tok = match split_on ',' tok with
         | ["c"; i] -> CClone (nat_of_int (ios i))
